@@ -8,7 +8,7 @@ use yasna::Tag;
 #[cfg(feature = "pem")]
 use crate::ENCODE_CONFIG;
 use crate::{
-	dt_to_generalized, oid, write_distinguished_name, write_dt_utc_or_generalized,
+	dt_strip_nanos, dt_to_generalized, oid, write_distinguished_name, write_dt_utc_or_generalized,
 	write_x509_authority_key_identifier, write_x509_extension, Certificate, Error, Issuer,
 	KeyIdMethod, KeyPair, KeyUsagePurpose, SerialNumber,
 };
@@ -193,7 +193,9 @@ impl CertificateRevocationListParams {
 		issuer: &Certificate,
 		issuer_key: &KeyPair,
 	) -> Result<CertificateRevocationList, Error> {
-		if self.next_update.le(&self.this_update) {
+		// Both times are encoded with whole-second precision, so compare them that way:
+		// otherwise a sub-second difference yields a CRL whose nextUpdate equals thisUpdate.
+		if dt_strip_nanos(self.next_update).le(&dt_strip_nanos(self.this_update)) {
 			return Err(Error::InvalidCrlNextUpdate);
 		}
 
